@@ -279,17 +279,34 @@ theorem canon_update {s : State} (h : Canon s) (pid : Pid) (u : Upd) :
   · cases hf : findProv s pid <;> simp [stepD, step, hf, hm, hs]
   · cases hf : findProv s pid <;> simp [stepD, step, hf, hm]
 
+theorem canon_startStatics_aux (oldLast : Nat) (ps : List Provider) {s : State} (h : Canon s) :
+    Canon (ps.foldl (fun s p =>
+      if p.cfg = staticCfg ∧ oldLast ≤ p.id then stepD (stepD s (.u1 p.id staticUpd)) (.u2 p.id) else s) s) := by
+  induction ps generalizing s with
+  | nil => exact h
+  | cons p r ih =>
+    simp only [List.foldl_cons]
+    apply ih
+    split
+    · exact canon_update h _ _
+    · exact h
+
+theorem canon_startStatics (oldLast : Nat) {s : State} (h : Canon s) : Canon (startStatics oldLast s) :=
+  canon_startStatics_aux oldLast s.providers h
+
 /-- Every op of the suite keeps the model between actions … -/
 theorem modelOp_canon {s : State} (h : Canon s) (op : String) : Canon (modelOp s op).1 := by
   unfold modelOp
   split
   · split
-    · exact canon_applyConfig h _
+    · exact canon_startStatics _ (canon_applyConfig h _)
     · exact h
   · split
     · split
-      · exact canon_update h _ _
       · exact h
+      · split
+        · exact canon_update h _ _
+        · exact h
     · exact h
   · exact h
   · exact h
